@@ -62,6 +62,10 @@ def cases(tier, seed, info):
                             out.append(dict(mode=s['mode'], fault=s['fault'], err=s['err'], pos=pos, entry=entry,
                                             clean=clean, hex=hexm, pel=p, data=data,
                                             hidden=encode.encode(hidden)))
+        for m in ('json', 'file'):
+            for pt_ in CRASH_POINTS[m]:
+                out.append(dict(kind='crash', mode=m, point=pt_, pel=p, data=data))
+    info['crash_points'] = sum(len(v) for v in CRASH_POINTS.values())
     return out
 
 
@@ -175,7 +179,45 @@ def _count_writes(data_bytes, hexmode):
     return js
 
 
+CRASH_POINTS = {'json': ['before_open', 'after_open', 'after_write1', 'after_writes', 'before_close', 'after_close',
+                         'before_remove', 'after_remove', 'never'],
+                'file': ['before_print', 'after_print', 'after_flush', 'before_remove', 'after_remove', 'never']}
+
+
+def _crash_case(case):
+    """the process is killed (os._exit) at one point of the protocol; Safe must hold on disk"""
+    import subprocess
+    from ..framework import REPO, VERIF
+    base = seams.scratch_dir('c12crash')
+    work = os.path.join(base, 'run')
+    shutil.rmtree(work, ignore_errors=True)
+    os.makedirs(os.path.join(work, 'in'))
+    os.makedirs(os.path.join(work, 'out'))
+    data = bytes(case['data'])
+    in_path = os.path.join(work, 'in', '%08X_x' % (0x50000100 + case['pel']))
+    seams.write_file(in_path, data)
+    cap = os.path.join(work, 'stdout.txt')
+    expected = _count_writes(data, False)
+    p = subprocess.run(['/venv/bin/python', os.path.join(VERIF, 'harness', 'c12_crash.py'), REPO, case['mode'], in_path,
+                        os.path.join(work, 'out'), case['point'], cap], stdout=subprocess.PIPE, stderr=subprocess.PIPE,
+                       timeout=60, env=dict(os.environ, PYTHONDONTWRITEBYTECODE='1', PYTHONWARNINGS='ignore'))
+    present = os.path.exists(in_path)
+    unchanged = present and open(in_path, 'rb').read() == data
+    if case['mode'] == 'json':
+        files = sorted(os.listdir(os.path.join(work, 'out')))
+        complete = len(files) == 1 and open(os.path.join(work, 'out', files[0])).read() == expected
+    else:
+        complete = os.path.exists(cap) and open(cap).read() == expected + '\n'
+    shutil.rmtree(work, ignore_errors=True)
+    return [dict(kind='crash', shape_ok=p.returncode in (0, 137), mode=case['mode'], entry='main', fault='crash',
+                 err=case['point'], pos='-', clean=True, hex=False, pel=case['pel'], events=[],
+                 input_present_after=present, input_unchanged=bool(unchanged), out_complete=bool(complete),
+                 uncaught=p.stderr.decode('utf-8', 'replace')[-200:] if p.returncode not in (0, 137) else '')]
+
+
 def run_case(case):
+    if case.get('kind') == 'crash':
+        return _crash_case(case)
     import pel.peltool.peltool as pt
     from pel.peltool.config import Config
     base = seams.scratch_dir('c12')
@@ -282,7 +324,7 @@ def run_case(case):
             complete = text == expected_json + '\n'
     shutil.rmtree(work, ignore_errors=True)
     ok_shape = all(isinstance(e, str) for e in log)
-    return [dict(shape_ok=ok_shape, mode=mode, entry=case['entry'], fault=fault, err=case.get('err', ''), pos=case['pos'],
+    return [dict(kind='run', shape_ok=ok_shape, mode=mode, entry=case['entry'], fault=fault, err=case.get('err', ''), pos=case['pos'],
                  clean=case['clean'], hex=case['hex'], pel=case['pel'], events=list(log),
                  input_present_after=present, input_unchanged=bool(unchanged), out_complete=bool(complete),
                  uncaught=uncaught or '')]
